@@ -17,7 +17,7 @@ import (
 )
 
 const (
-	vIdle = 7 * time.Second
+	vIdle = 1 * time.Second
 	vSync = 11 * time.Second
 )
 
@@ -31,6 +31,21 @@ type vLife struct {
 	disconnects int
 	connects    int
 	sendFails   bool
+	slowPings   bool // handling a ping takes longer than the idle timeout
+}
+
+// HandlePing: with slowPings the handling of one message straddles an idle expiry (a busy server, a slow
+// module, lock contention): the idle timer fires while the message is being handled and the next message
+// of the client is already waiting.
+func (v *vLife) HandlePing(ctx context.Context, respond hwebsocket.ResponseSender, msg hwebsocket.Msg) error {
+	if v.slowPings {
+		if verifnd.Symbolic() {
+			verifnd.FireTickers(vIdle)
+		} else {
+			time.Sleep(vIdle + vIdle/2)
+		}
+	}
+	return v.RealtimeHandler.HandlePing(ctx, respond, msg)
 }
 
 func (v *vLife) HandleConnect(conn *websocket.Conn) {
@@ -129,9 +144,20 @@ func VerifC08Life() {
 			life.script <- mk(&hagallpb.EntityDeleteRequest{Type: hagallpb.MsgType_MSG_TYPE_ENTITY_DELETE_REQUEST, Timestamp: vts(), RequestId: 4, EntityId: 77})
 		}
 	}
-	ending := verifnd.Choice(4)
+	ending := verifnd.Choice(5)
 	endName := "client_closes"
 	switch ending {
+	case 4:
+		// handling each of 1..3 further pings takes longer than the idle timeout, then the client is silent:
+		// the idle expiry races with the next waiting message; whichever wins, the connection ends once
+		endName = "slow_handling_then_idle"
+		if burst != 0 || switched || pendingPose {
+			verifnd.Assume(false) // this ending is explored on its own: joined or not, 1..3 slow pings
+		}
+		life.slowPings = true
+		for i, n := 0, 1+verifnd.Choice(3); i < n; i++ {
+			life.script <- mk(&hagallpb.Request{Type: hagallpb.MsgType_MSG_TYPE_PING_REQUEST, Timestamp: vts(), RequestId: 8})
+		}
 	case 3:
 		// the client stays connected and the idle period never elapses: nothing may end the connection, unless
 		// one of its own requests failed in the handler
@@ -171,7 +197,7 @@ func VerifC08Life() {
 				close(life.closedByCli)
 			}
 		}
-		if ending == 1 {
+		if ending == 1 || ending == 4 {
 			// the client stays silent: time passes; whenever everything is blocked another idle period elapses
 			for i := 0; i < 14; i++ {
 				verifnd.Quiesce()
